@@ -524,15 +524,67 @@ def _rfp_samples():
             bad[1, 1] = np.inf
             yield dict(xy=bad, shape=shape, padding=padding, align=align, k=0)
         yield dict(xy=np.asarray([[np.nan, 1.0], [2.0, np.inf]]), shape=(10, 10), padding=0, align=None, k=0)
+        # every way a single kind of non-finite value can occur alone (only NaN / only +inf / only -inf, in x, in y, in both) and all mixes
+        nf = {"nan": np.nan, "+inf": np.inf, "-inf": -np.inf}
+        good = [[50.5, 40.2], [60.1, 47.9], [55.0, 44.0]]
+        for r in range(1, 4):
+            for kinds in itertools.combinations(nf, r):
+                for where in ("x", "y", "xy"):
+                    rows = [[nf[kd] if "x" in where else 7.0, nf[kd] if "y" in where else 9.0] for kd in kinds]
+                    for order in (rows + good, good + rows, good[:1] + rows + good[1:]):
+                        yield dict(xy=np.asarray(order), shape=(120, 100), padding=0, align=None, k=0)
         yield dict(xy=np.zeros((0, 2)), shape=(10, 10), padding=0, align=None, k=0)
 
-    return "3 image shapes x paddings {0,1,5} x alignments {None,4,16} x outliers at 0, 1e5, +-3e9 (beyond int32), 1e12, -1e15, 1e300; with and without NaN/inf rows; all-non-finite and empty point sets", gen()
+    return "3 image shapes x paddings {0,1,5} x alignments {None,4,16} x outliers at 0, 1e5, +-3e9 (beyond int32), 1e12, -1e15, 1e300; with and without NaN/inf rows; every single kind of non-finite value alone (NaN / +inf / -inf, in x / y / both, at the start / end / middle) and all mixes; all-non-finite and empty point sets", gen()
+
+
+def _rfp_reference(xy, shape, padding, align):
+    """the region from the FINITE rows only, in plain integer arithmetic (what 'ignores non-finite points' means)"""
+    import math
+
+    ny, nx = shape
+    fin = [(float(x), float(y)) for x, y in xy if math.isfinite(x) and math.isfinite(y)]
+    if not fin:
+        return ((0, 0), (0, 0))
+    out = []
+    for vals, n in (([p[1] for p in fin], ny), ([p[0] for p in fin], nx)):
+        lo, hi = math.floor(min(vals)) - padding, math.ceil(max(vals)) + padding
+        if align is not None:
+            lo, hi = lo - lo % align, hi + (-hi) % align
+        out.append((min(max(lo, 0), n), min(max(hi, 0), n)))
+    return tuple(out)
 
 
 def _rfp_post_native(xy, shape, padding, align, result):
     if hasattr(xy, "point"):
         return True  # symbolic run: the clauses above decide it
-    return _rfp_post(xy, shape, padding, align, result)
+    import numpy as np
+
+    far = np.abs(xy[np.isfinite(xy)]).max() >= 2.0**30 - 2.0**21 if np.isfinite(xy).any() else False
+    exact = far or tuple((s.start, s.stop) for s in result) == _rfp_reference(xy, shape, padding, align)  # (beyond 2**30 the code clips early: only containment is promised)
+    return bool(exact) and _rfp_post(xy, shape, padding, align, result)
+
+
+def _rfp_tight(xy, shape, padding, align, result):
+    """no larger than needed (symbolic, without alignment): each edge is the floor / ceil of SOME point's coordinate, moved by
+    the padding and clamped to the image -- so a point set is never answered with a region reaching beyond its own envelope"""
+    if not hasattr(xy, "point") or align is not None:
+        return True
+    ny, nx = _rfp_shape(shape)
+    ys, xs = result
+    n = _npts(xy)
+    clampx = lambda v: Min(Max(v, 0), nx)
+    clampy = lambda v: Min(Max(v, 0), ny)
+    near = forall(0, n, lambda j: And(Abs(_pt(xy, j)[0]) <= 2**29, Abs(_pt(xy, j)[1]) <= 2**29))  # beyond +-2**30 the code clips early (containment still holds)
+    return Implies(
+        And(n >= 1, near),
+        And(
+            exists(0, n, lambda j: xs.start == clampx(floor(_pt(xy, j)[0]) - padding)),
+            exists(0, n, lambda j: xs.stop == clampx(ceil(_pt(xy, j)[0]) + padding)),
+            exists(0, n, lambda j: ys.start == clampy(floor(_pt(xy, j)[1]) - padding)),
+            exists(0, n, lambda j: ys.stop == clampy(ceil(_pt(xy, j)[1]) + padding)),
+        ),
+    )
 
 
 def _rfp_post(xy, shape, padding, align, result):
@@ -606,6 +658,7 @@ contract(
         ("stays within the image", lambda shape, result: And(0 <= result[0].start, result[0].stop <= shape[0], 0 <= result[1].start, result[1].stop <= shape[1], is_int_obj(result[0].start), is_int_obj(result[1].stop))),
         ("contains every (finite) point that falls inside the image, together with its padding clamped to the image -- however far away the other points are", lambda xy, shape, padding, result, k: _rfp_contains(xy, shape, padding, result, k)),
         ("edges are aligned as requested (or sit on the image border)", lambda shape, align, result: _rfp_aligned(shape, align, result)),
+        ("tight: every edge comes from some point's coordinate (floor / ceil, padding, clamped): nothing outside the points' own envelope is added", lambda xy, shape, padding, align, result: _rfp_tight(xy, shape, padding, align, result)),
         ("no points: the empty region", lambda xy, result: Implies(_npts(xy) == 0, And(result[0].start == 0, result[0].stop == 0, result[1].start == 0, result[1].stop == 0))),
         ("bounded-part: non-finite rows are ignored, huge coordinates do not wrap (native samples)", _rfp_post_native),
     ],
